@@ -332,6 +332,9 @@ def pipe_in_families(pools=(1,)):
         out.append(make('PI_sender_vs_D_p%d' % p, 1, p, 0, [PI(1, 1), D(1), S(1)], [SEND(1, 1), SEND(1, 2), CLOSE(1)], pipes=1))
         out.append(make('PI_burst_T_p%d' % p, 1, p, 0, [PI(1, 1), SEND(1, 1), SEND(1, 2), SEND(1, 3)], [T(1), S(1)], pipes=1))
         out.append(make('PI_drop_vs_send_p%d' % p, 1, p, 0, [PI(1, 1), SEND(1, 1), DROP(1)], [SEND(1, 2), CLOSE(1)], pipes=1))
+        # an item is announced while the previous poll job is still running or finishing, and an operation is queued right behind it
+        out.append(make('PI_send_send_D_S_p%d' % p, 1, p, 0, [PI(1, 1), SEND(1, 1), SEND(1, 2), D(1), S(1)], pipes=1))
+        out.append(make('PI_send_D_send_D_p%d' % p, 1, p, 0, [PI(1, 1), SEND(1, 1), D(1), SEND(1, 2), D(1), CLOSE(1)], [S(1)], pipes=1))
     out.append(make('PI_procgate_p1', 1, 1, 1, [PI(1, 1, g=1), SEND(1, 1), SEND(1, 2), S(1)], [FIRE(1)], pipes=1))
     out.append(make('PI_p0_sync_drives', 1, 0, 0, [PI(1, 1), SEND(1, 1), S(1), CLOSE(1), S(1)], pipes=1))
     return out
